@@ -106,6 +106,10 @@ func intrinsicFuncMod(fn *ssa.Function) *ModSet {
 			}
 		}
 		return ms
+	case strings.HasPrefix(full, "os."), strings.HasPrefix(full, "(*os.File)."), strings.HasPrefix(full, "io/fs."), strings.HasPrefix(full, "(*os."),
+		strings.HasPrefix(full, "(io/fs."), strings.HasPrefix(full, "(os."):
+		// the file system is not part of the modelled heap: these calls allocate results and touch nothing else
+		return &ModSet{Arrs: map[string]bool{}, Alloc: true}
 	case strings.HasPrefix(full, "(*log/slog.Logger)."), strings.HasPrefix(full, "log."), strings.HasPrefix(full, "(*log.Logger)."):
 		return &ModSet{Arrs: map[string]bool{}, Alloc: true}
 	case strings.HasPrefix(full, "sync/atomic."), strings.HasPrefix(full, "(*sync/atomic."),
@@ -118,6 +122,9 @@ func intrinsicFuncMod(fn *ssa.Function) *ModSet {
 
 func intrinsicInvokeMod(c *ssa.CallCommon) *ModSet {
 	key := typeKey(c.Value.Type()) + "." + c.Method.Name()
+	if strings.HasPrefix(key, "io/fs.FileInfo.") || strings.HasPrefix(key, "os.FileInfo.") || strings.HasPrefix(key, "os.DirEntry.") || strings.HasPrefix(key, "io/fs.DirEntry.") || strings.HasPrefix(key, "io/fs.FileMode.") {
+		return &ModSet{Arrs: map[string]bool{}, Alloc: true} // file metadata accessors: no effect on the modelled heap
+	}
 	switch key {
 	case "error.Error", "fmt.Stringer.String", "context.Context.Err", "context.Context.Done", "context.Context.Deadline", "context.Context.Value":
 		return &ModSet{Arrs: map[string]bool{}, Alloc: true}
@@ -272,6 +279,10 @@ func (fr *Frame) pureFacts(full string, args []Val, v Val) {
 
 func (fr *Frame) invokeIntrinsic(ins ssa.Instruction, c *ssa.CallCommon, recv Val, args []Val, rt types.Type) (Val, bool) {
 	key := typeKey(c.Value.Type()) + "." + c.Method.Name()
+	if strings.HasPrefix(key, "io/fs.FileInfo.") || strings.HasPrefix(key, "os.FileInfo.") || strings.HasPrefix(key, "os.DirEntry.") || strings.HasPrefix(key, "io/fs.DirEntry.") {
+		trustedUsed["io/fs.FileInfo / DirEntry accessors: no effect on the modelled heap, result unconstrained"] = true
+		return fr.freshVal(fr.prefix+"_inv_"+c.Method.Name(), rt, fr.cur.reach, fr.cur.st), true
+	}
 	switch key {
 	case "error.Error", "fmt.Stringer.String", "context.Context.Err", "context.Context.Done", "context.Context.Deadline", "context.Context.Value":
 		trustedUsed["error.Error, Stringer.String, context.Context methods: no effect on the modelled heap, result unconstrained"] = true
